@@ -117,9 +117,14 @@ func (g *vfGen) runMore15(slice string) bool {
 func (g *vfGen) hostileLabel() []byte {
 	special := []byte{'"', '\\', ';', '=', '\'', '%', '*', '\r', '\n', '\t', 0x7F, 0x80, 0xFF, ' ', ',', '/', '(', '@', 0x00, 0x1F, 0xC3, 0xA9}
 	n := 1 + g.intn(12)
+	long := g.intn(8) == 0
+	if long { // far longer than any registered charset name: mostly letters, a few bytes that need quoting
+		n = 150 + g.intn(400)
+		special = []byte{' ', '/', '=', ',', ';', '(', '@', '\\', '%', '*'}
+	}
 	b := make([]byte, n)
 	for i := range b {
-		if g.intn(2) == 0 {
+		if (!long && g.intn(2) == 0) || (long && g.intn(40) == 0) {
 			b[i] = special[g.intn(len(special))]
 		} else {
 			b[i] = byte('a' + g.intn(26))
